@@ -28,6 +28,14 @@ fn handle(line: &str, oracle: bool) -> String {
         (["FRAME", h], true) => unhex(h).map(|d| l1::oracle_frame(&d)).unwrap_or_else(bad),
         (["SCAN", h], false) => unhex(h).map(|d| l1::op_scan(&d)).unwrap_or_else(bad),
         (["SCAN", h], true) => unhex(h).map(|d| l1::oracle_scan(&d)).unwrap_or_else(bad),
+        (["BIGFRAME", t, h], o) => match (t.parse::<usize>(), unhex(h)) {
+            (Ok(t), Some(d)) => l1::op_big(false, o, t, &d),
+            _ => bad(),
+        },
+        (["BIGSCAN", t, h], o) => match (t.parse::<usize>(), unhex(h)) {
+            (Ok(t), Some(d)) => l1::op_big(true, o, t, &d),
+            _ => bad(),
+        },
         (["ITER", h], false) => unhex(h).map(|d| l1::op_iter(&d)).unwrap_or_else(bad),
         (["ITER", h], true) => unhex(h).map(|d| l1::oracle_iter(&d)).unwrap_or_else(bad),
         (["FEED", h], false) => chunks(h).map(|c| l1::op_feed(&c)).unwrap_or_else(bad),
@@ -110,6 +118,10 @@ fn handle(line: &str, oracle: bool) -> String {
         },
         // sessions that also use build_generated_message: oracle only (the model answers BAD-OP as well)
         (["BUILDSEQG", rest @ ..], o) => if o { l3::oracle_buildseq_gen(rest) } else { "BAD-OP".into() },
+        (["BUILDREP", n, rest @ ..], o) => match n.parse::<usize>() {
+            Ok(n) => l3::op_buildrep(n, rest, o),
+            _ => bad(),
+        },
         (["BUILDSEQ", rest @ ..], o) => if o { l3::oracle_buildseq(rest) } else { l3::op_buildseq(rest) },
         (["STR88591", n, rest @ ..], o) => match n.parse::<usize>() {
             Ok(n) => if o { l3::oracle_str88591(n, rest) } else { l3::op_str88591(n, rest) },
